@@ -207,7 +207,11 @@ def main():
             dist[k] = dist.get(k, 0) + 1
     samples = []
     for (c, im, mo, v) in results[ncorpus:ncorpus + 400:100][:3] + results[-1:]:
-        smp = mod.sample(c, im, mo) if hasattr(mod, 'sample') else dict(
+        try:
+            smp0 = mod.sample(c, im, mo) if hasattr(mod, 'sample') else None
+        except Exception as e:
+            smp0 = dict(case='sample() failed: %r' % (e,))
+        smp = smp0 if smp0 is not None else dict(
             case={k: x for k, x in c.items() if not k.startswith('_')}, impl=im if not isinstance(im, dict) or 'tb' not in im else im.get('exc'), model=mo)
         smp = common.strict(smp)
         for k in list(smp):
